@@ -273,6 +273,9 @@ ALL_TYPE_NAMES = BASE_TYPE_NAMES + ["OBJECT"]
 
 PRIMITIVE_PYTHON_TYPES = [int, float, str, bool]
 
+# Rule name given to the separator match of a repetition (`+=Rule[',']`).
+SEPARATOR_RULE_NAME = "<sep>"
+
 for regex in [ID, BOOL, INT, FLOAT, STRICTFLOAT, STRING]:
     regex.compile()
 
@@ -821,8 +824,9 @@ class TextXVisitor(RRELVisitor):
         modifiers = {}
         for modifier in children:
             if isinstance(modifier, Match):
-                # Separator
-                modifier.rule_name = "sep"
+                # Separator. Its parse-tree nodes are recognized by this name
+                # which, not being an identifier, can not be a grammar rule.
+                modifier.rule_name = SEPARATOR_RULE_NAME
                 modifiers["sep"] = modifier
             elif isinstance(modifier, tuple):
                 modifiers["multiplicity"] = modifier
